@@ -153,6 +153,18 @@ func cmdCheck(args []string) int {
 		if kf := knownBy[o.Name]; kf != nil && fcByDisplay[o.Function] != nil {
 			gk := guardKey{o.Function, kf.Guard}
 			gr := guarded[gk]
+			if strings.TrimSpace(kf.Guard) == "false" {
+				// no region is left in which the obligation holds: the finding is identified by the obligation alone
+				o.Status = "known-finding"
+				rep.Failed--
+				rep.Discharged++
+				nKnown++
+				knownLines = append(knownLines, fmt.Sprintf("KNOWN-FINDING: property=%s %s %s (no guard: the obligation is not claimed anywhere)", *prop, o.Name, kf.What))
+				assumptions = append(assumptions, fmt.Sprintf("known finding %s: obligation %s is NOT discharged and not counted as proved", kf.ID, o.Name))
+				rep.Discharged--
+				rep.Obligations--
+				continue
+			}
 			if gr == nil {
 				fc := fcByDisplay[o.Function]
 				fc2 := *fc
